@@ -59,8 +59,26 @@ class SymTab:
             if s.derived:
                 kind, b, k = s.derived
                 x = base.get(b, self.syms[b].lb if b in self.syms else 0)
-                val[s.name] = x // k if kind == "floordiv" else (-(-x // k) - x // k)
+                if kind == "floordiv":
+                    val[s.name] = x // k
+                elif kind == "frac":
+                    val[s.name] = -(-x // k) - x // k
+                elif kind == "maxfloordiv":  # max(x // k0, c)
+                    val[s.name] = max(x // k[0], k[1])
+                elif kind == "maxbase":  # max(x, c)
+                    val[s.name] = max(x, k)
+                else:
+                    raise ValueError(f"unknown derived symbol kind {kind}")
         return val
+
+    def max_const(self, sym: str, c: int) -> "Form":
+        """max(<symbol>, c) for a base symbol or a floordiv of one, as a derived symbol of the same base (evaluated exactly in valuations)"""
+        s = self.syms[sym]
+        if s.derived is None:
+            return self.get(f"max({sym},{c})", lb=max(s.lb or 0, c), derived=("maxbase", sym, c))
+        if s.derived[0] == "floordiv":
+            return self.get(f"max({sym},{c})", lb=c, derived=("maxfloordiv", s.derived[1], (s.derived[2], c)))
+        raise ValueError("max of this derived symbol is not modelled")
 
 
 @dataclass(frozen=True)
